@@ -28,3 +28,84 @@ def u_calc_trim(ctx):
                    # consequence stated by the property: the kept pieces tile the window exactly
                    np1 + Max(img - c1 - c2, 0) + np2 == size - t1 - t2)
     return exits(eng, outs, ensure=ensure, replay="C17.calc_trim")
+
+
+# ------------------------------------------------------------------------------------------------ rows() announces what render() produces
+@unit("C17", "_urwid:UrwidImage.rows-vs-render")
+def u_rows_render(ctx):
+    """flow widgets: the row count announced by rows((cols,)) equals the number of rows of the canvas render((cols,)) builds.
+    _valid_size is an uninterpreted deterministic function of its arguments (its own contract is C04)."""
+    obs = []
+    I = z3.IntSort()
+    VW = z3.Function("valid_w", I, I, I)
+    VH = z3.Function("valid_h", I, I, I)
+    ns = ctx.ns("term_image.image.common")
+    SizeNS = ns.d["Size"]
+    for sizing in ("FIT", "AUTO"):
+        eng = ctx.engine(f"C17/rows-vs-render[{sizing}]", "C17")
+        eng.default_replay = "C17.rows"
+        st = State()
+        cols = z3.Int("cols")
+        st.pc.append(cols >= 1)
+        eng.genv["Size"] = SizeNS
+        eng.genv["UrwidImageError"] = ClassV("UrwidImageError")
+
+        def code(v):
+            if v is None:
+                return z3.IntVal(-1)
+            if isinstance(v, EnumV):
+                return z3.IntVal(-2 - ["FIT", "AUTO", "ORIGINAL", "FIT_TO_WIDTH"].index(v.name))
+            return to_z3(v)
+
+        def valid_size(e, s, recv, a, k):
+            a = list(a) + [None] * (2 - len(a))
+            w, h = code(a[0]), code(a[1])
+            r = (VW(w, h), VH(w, h))
+            s.pc += [r[0] >= 1, r[1] >= 1]
+            return [(r, s)]
+        eng.methods[("BlockImage", "_valid_size")] = valid_size
+
+        def set_size(e, s, recv, a, k):
+            # contract of set_size (C04): stores _valid_size(width, height, frame_size) (default frame size here)
+            if k.get("frame_size") is not None or len(a) > 2:
+                raise Unsupported("set_size with a frame size in the flow branch")
+            s = e.fork(s)
+            (r, s), = valid_size(e, s, recv, a, k)
+            s.H(recv)["_size"] = r
+            return [(None, s)]
+        eng.methods[("BlockImage", "set_size")] = set_size
+        image = st.new("BlockImage", {"_size": (z3.Int("old_w"), z3.Int("old_h"))})
+        self_ = st.new("UrwidImage", {"_ti_image": image, "_ti_sizing": SizeNS.d[sizing], "_ti_alpha": None, "_ti_style_args": st.new("dict", {"@items": {}}),
+                                      "_ti_h_align": "<", "_ti_v_align": "^"})
+        # rows()
+        s0 = st.fork()
+        s0.env.update(self=self_, size=(cols,), focus=False)
+        rows_out = run_function(eng, ctx.fn(URW, "UrwidImage.rows"), s0)
+        # render(): up to the construction of the canvas
+        canv = {}
+
+        def new_canvas(e, s, c, a, k):
+            s = e.fork(s)
+            o = s.new("UrwidImageCanvas", {"render": a[0], "size": a[1], "image_size": a[2]})
+            return [(o, s)]
+        eng.methods["new:UrwidImageCanvas"] = new_canvas
+        eng.genv["UrwidImageCanvas"] = ClassV("UrwidImageCanvas")
+        eng.methods[("BlockImage", "_renderer")] = lambda e, s, recv, a, k: [(Opaque("render"), s)]
+        eng.methods[("BlockImage", "_format_render")] = lambda e, s, recv, a, k: [(Rec("formatted", {"size": (a[2], a[4])}), s)]
+        eng.attrs[("BlockImage", "_render_image")] = lambda e, s, v: [(Opaque("method"), s)]
+        eng.genv["type"] = Fn(lambda e, s, a, k: [(st.new("wcls", {"_ti_error_placeholder": None}), s)])
+        s1 = st.fork()
+        s1.env.update(self=self_, size=(cols,), focus=False)
+        render_out = run_function(eng, ctx.fn(URW, "UrwidImage.render"), s1)
+        for k1, v1, sa in rows_out:
+            for k2, v2, sb in render_out:
+                s = sb.fork()
+                s.pc += sa.pc
+                if k1 != "return" or k2 != "return":
+                    eng.oblige("no-exception", s, False, kind="raise")
+                    continue
+                csize = sb.H(v2)["size"]
+                eng.oblige("announced-rows=rows-of-the-rendered-canvas", s, And(Eq(v1, csize[1]), Eq(csize[0], cols)), kind="post")
+                eng.oblige("canvas-size=formatted-render-size=(cols,image-height)", s, And(Eq(csize, sb.H(v2)["render"].f["size"]), Eq(csize[1], sb.H(v2)["image_size"][1])), kind="post")
+        obs += eng.obligations
+    return obs
